@@ -413,7 +413,7 @@ def gen(rng, n, tier):
             ops += o
         ops += binary_pairs(rng, list(range(7)), 1 << 14)
     else:
-        ops += binary_pairs(rng, list(range(6)), 250)
+        ops += binary_pairs(rng, list(range(6)), 1500)
     bases = [0, 0, 0, 1000, 2**62 - 6, U64 - 13]
     target = len(ops) + n
     while len(ops) < target:
